@@ -832,7 +832,7 @@ R_WFailNew(p) ==
 
 R_DepAll(p) ==
   /\ pc[p] = "R_DepAll" /\ Budgets
-  /\ LET o == op[p]  ds == SetToSortSeq(Deployed) IN
+  /\ LET o == op[p]  ds == OrderBy(Deployed, LexKey) IN          \* in the order the driver listed them
      StoreRead(p, "query", "status=deployed", Deployed # {},
        IF ds = <<>> THEN [pc |-> "R_RecDeployed", op |-> o]
        ELSE [pc |-> "R_Sup", op |-> [o EXCEPT !.dseq = ds]])
